@@ -48,7 +48,7 @@ fn main() {
     let thorough = tier == "thorough";
     let mut rep = Report::new(&property, &tier, seed);
     // must equal MANIFEST.json level_claimed.category
-    if matches!(property.as_str(), "C06" | "C07" | "C13") {
+    if matches!(property.as_str(), "C06" | "C07" | "C08" | "C13") {
         rep.level = "fault_enumeration".to_string();
     }
     rep.assumptions.push("undermoon is built at opt-level 0 (debug assertions and overflow checks on); release builds of the crate do not compile with the installed toolchain".to_string());
@@ -110,6 +110,10 @@ fn main() {
         }
         "C05" => {
             umverif::c05::run(&mut rep);
+            rep.finish()
+        }
+        "C08" => {
+            umverif::c08::run(&mut rep);
             rep.finish()
         }
         "C09" => {
